@@ -77,6 +77,34 @@ func isConstantText(p *Prog, fn *ssa.Function, v ssa.Value, depth int) bool {
 	case *ssa.Call:
 		// text assembled by a module helper from constants and its own (constant) arguments
 		sc := x.Call.StaticCallee()
+		// text assembled by a side-effect-free function of package strings or fmt from constant operands only
+		// (strings.Join over a literal list of constants, strings.Repeat, fmt.Sprintf of constants, ...)
+		if sc != nil && sc.Pkg != nil && (sc.Pkg.Pkg.Path() == "strings" || sc.Pkg.Pkg.Path() == "fmt" && strings.HasPrefix(sc.Name(), "Sprint")) && sc.Signature.Recv() == nil {
+			for _, a := range x.Call.Args {
+				if mi, ok := a.(*ssa.MakeInterface); ok {
+					a = mi.X
+				}
+				if _, isSlice := a.Type().Underlying().(*types.Slice); isSlice {
+					if c, isC := a.(*ssa.Const); isC && c.Value == nil {
+						continue
+					}
+					elems, ok := sliceLiteralValues(a)
+					if !ok {
+						return false
+					}
+					for _, e := range elems {
+						if !isConstantText(p, fn, e, depth+1) {
+							return false
+						}
+					}
+					continue
+				}
+				if !isConstantText(p, fn, a, depth+1) {
+					return false
+				}
+			}
+			return true
+		}
 		if sc == nil || !p.InModule(sc) || len(sc.Blocks) == 0 || sc.Signature.Results().Len() != 1 {
 			return false
 		}
@@ -332,6 +360,9 @@ func checkBodyWrites(r *Report, p *Prog) {
 							if v, ok := constStr(c.Call.Args[2]); ok && strings.Contains(v, "html") {
 								html = true
 							}
+						} else if !ok {
+							// headers set from a table in a loop: the content type may be among them
+							html = true
 						}
 					}
 				}
@@ -757,4 +788,60 @@ func endpointParamRoles(p *Prog, fn *ssa.Function) (binding, location int) {
 		}
 	}
 	return 0, 1
+}
+
+// sliceLiteralValues: v is a slice literal (a slice of a local array every element of which is stored once at a constant
+// index, nothing else done with the array): its elements in order (interface wrappers peeled).
+func sliceLiteralValues(v ssa.Value) ([]ssa.Value, bool) {
+	sl, ok := v.(*ssa.Slice)
+	if !ok || sl.Low != nil || sl.High != nil {
+		return nil, false
+	}
+	al, ok := sl.X.(*ssa.Alloc)
+	if !ok {
+		return nil, false
+	}
+	at, ok := derefType(al.Type()).Underlying().(*types.Array)
+	if !ok {
+		return nil, false
+	}
+	m := map[int64]ssa.Value{}
+	for _, ref := range *al.Referrers() {
+		switch u := ref.(type) {
+		case *ssa.Slice:
+			if u != sl {
+				return nil, false
+			}
+		case *ssa.IndexAddr:
+			k, isK := constInt(u.Index)
+			if !isK {
+				return nil, false
+			}
+			for _, r2 := range *u.Referrers() {
+				st, ok := r2.(*ssa.Store)
+				if !ok || st.Addr != ssa.Value(u) {
+					return nil, false
+				}
+				if _, dup := m[k]; dup {
+					return nil, false
+				}
+				val := st.Val
+				if mi, ok := val.(*ssa.MakeInterface); ok {
+					val = mi.X
+				}
+				m[k] = val
+			}
+		case *ssa.DebugRef:
+		default:
+			return nil, false
+		}
+	}
+	if int64(len(m)) != at.Len() {
+		return nil, false
+	}
+	out := make([]ssa.Value, 0, len(m))
+	for i := int64(0); i < at.Len(); i++ {
+		out = append(out, m[i])
+	}
+	return out, true
 }
